@@ -39,6 +39,7 @@ DEVIATIONS = (
     [("imp", "B", v) for v in ([], ["."], ["../"], ["../sub"], ["nodir", ".."])] +
     [("imp", "C", v) for v in ([], ["../sub/.."])] +
     [("imp", "Main", v) for v in ([], ["sub/"], ["./sub"], ["sub", "."], ["nodir"], ["sub", "nodir"])] +
+    [("nomod", w, True) for w in ("A", "B", "C")] +        # component file without the module import: Qt classes are not visible *there*
     [("ver", w, v) for w in ("A", "B", "C", "Main") for v in (["module"], ["string"], ["module", "string"])] +
     [("use", None, u) for u in ([], ["A"], ["B"], ["C"], ["A", "A"], ["A", "B", "A"], ["B", "C", "B", "C"], ["C", "B", "A"])]
 )
@@ -53,6 +54,8 @@ def apply(layout, devs):
             l["imports"][who] = list(val)
         elif kind == "use":
             l["use"] = list(val)
+        elif kind == "nomod":
+            l.setdefault("nomodule", []).append(who)
         elif kind == "ver":
             l.setdefault("versions", {})[who] = list(val)     # versioned imports: the version is ignored (warning)
     return l
@@ -67,6 +70,8 @@ def layouts(tier):
             continue
         if tier != "thorough" and any(x[0] == "ver" and x[2] != ["module", "string"] for x in (a, b)):
             continue        # quick: versioned imports pair up in their combined form only
+        if tier != "thorough" and any(x[0] == "nomod" for x in (a, b)) and not any(x[0] == "root" for x in (a, b)):
+            continue        # quick: a file without the module import pairs up with root-type deviations only
         yield (a, b)
     if tier == "thorough":
         menu = [d for d in DEVIATIONS if d[0] == "root" or (d[0] == "imp" and d[2] in ([], ["nodir"]))]
@@ -78,7 +83,7 @@ def layouts(tier):
 def file_text(name, layout):
     ver = layout.get("versions", {}).get(name, [])
     imps = "".join(f'import "{i}"{" 1.0" if "string" in ver else ""}\n' for i in layout["imports"].get(name, []))
-    head = "import qmluic.QtWidgets" + (" 6.2" if "module" in ver else "") + "\n" + imps
+    head = ("" if name in layout.get("nomodule", []) else "import qmluic.QtWidgets" + (" 6.2" if "module" in ver else "") + "\n") + imps
     if name == "Main":
         kids = []
         for i, u in enumerate(layout["use"]):
@@ -133,7 +138,7 @@ def resolve(name_from, type_name, layout):
             if os.path.normpath(DIRS[type_name]) in ok:
                 return ("comp", type_name)
         return None
-    if type_name in QT:
+    if type_name in QT and name_from not in layout.get("nomodule", []):
         return ("qt", type_name)
     return None
 
